@@ -4,6 +4,7 @@ import (
 	"fmt"
 	"time"
 
+	"verifsim/c06"
 	"verifsim/c11"
 	"verifsim/c16"
 	"verifsim/c19"
@@ -14,6 +15,8 @@ func buildSpec(id, tier string, seed uint64, raceBin, realBin string) (*core.Che
 	switch id {
 	case "C19":
 		return c19.Spec(tier, seed), nil
+	case "C06":
+		return c06.Spec(tier, seed, realBin), nil
 	case "C11":
 		return c11.Spec(tier, seed, raceBin), nil
 	case "C16":
